@@ -966,7 +966,9 @@ pub fn c02_prune_safety(rep: &Report, tier: Tier, scratch: &Scratch) {
             bump(&mut c, "anchors_checked", 1);
             let prefix = g.clone().partition().0;
             let base = Path::new("/waxmc-base/x");
-            let expected = base.join(&prefix);
+            // a glob that is rooted without an invariant prefix (rooted through a branch token)
+            // replaces the given directory with the root, like every rooted glob
+            let expected = if g.has_root().is_always() && prefix.as_os_str().is_empty() { PathBuf::from("/") } else { base.join(&prefix) };
             let mut bad = vec![];
             if root != expected {
                 bad.push(format!("traversal root {:?}, expected {:?} (given directory joined with the invariant prefix {:?})", root, expected, prefix));
@@ -974,7 +976,7 @@ pub fn c02_prune_safety(rep: &Report, tier: Tier, scratch: &Scratch) {
             if g.has_root().is_always() && (!root.is_absolute() || root.starts_with(base)) {
                 bad.push(format!("the glob is rooted but the traversal root {:?} is beneath the given directory", root));
             }
-            if !prefix.is_absolute() {
+            if !prefix.is_absolute() && !g.has_root().is_always() {
                 let appended = expected.components().count().saturating_sub(base.components().count());
                 if pivot != appended {
                     bad.push(format!("pivot {} but the join appended {} component(s)", pivot, appended));
@@ -1064,7 +1066,7 @@ pub fn replay_anchor(case: &Value) -> bool {
     let g = Glob::new(e).unwrap();
     let (root, pivot) = g.verif_walk_anchor("/waxmc-base/x");
     let prefix = g.clone().partition().0;
-    let expected = Path::new("/waxmc-base/x").join(&prefix);
+    let expected = if g.has_root().is_always() && prefix.as_os_str().is_empty() { PathBuf::from("/") } else { Path::new("/waxmc-base/x").join(&prefix) };
     println!("`{}`: invariant prefix {:?}; walked in /waxmc-base/x the traversal root is {:?} (pivot {}), expected {:?}", e, prefix, root, pivot, expected);
     root != expected
 }
